@@ -95,8 +95,8 @@ func ConcatItems[T any](items []T) (T, error) {
 	var cv reflect.Value
 	var err error
 
-	// handle map kind
-	if typ.Kind() == reflect.Map {
+	// handle map kind, unless a concat function has been registered for this (named) map type
+	if typ.Kind() == reflect.Map && GetConcatFunc(typ) == nil {
 		cv, err = concatMaps(v)
 	} else {
 		cv, err = concatSliceValue(v)
